@@ -46,7 +46,8 @@ func (o *MergeOpts) override(path []string) (Handling, bool) {
 		}
 		eq := true
 		for i := range path {
-			if path[i] != f.Path[i] {
+			// "*" in an option's path stands for every index of a list
+			if path[i] != f.Path[i] && !(f.Path[i] == "*" && isIndex(path[i])) {
 				eq = false
 				break
 			}
@@ -167,6 +168,18 @@ func mergeVal(old, v *Node, h Handling, path []string, o *MergeOpts, st *MergeSt
 	st.BothContainers++
 	mergeSub(old, v, h, path, o, st)
 	return old
+}
+
+func isIndex(s string) bool {
+	if s == "" {
+		return false
+	}
+	for _, c := range s {
+		if c < '0' || c > '9' {
+			return false
+		}
+	}
+	return true
 }
 
 func itoa(i int) string {
